@@ -54,16 +54,16 @@ Proof. split; [exact w_cks_ok|vm_compute; reflexivity]. Qed.
     before the constraints ([print_body]) does not contain the letters CHECK, fillChecks applied to the
     printed CREATE TABLE returns exactly the table's constraints.  This is C03_regex_inverts_printer for
     CHECK at full strength; the premise on the body cannot be dropped (3a). *)
-Theorem C03_regex_inverts_printer_checks :
+Theorem C03_regex_inverts_printer_checks_except :
   forall x b3 txt,
   print_body x = Some b3 -> print_table x = Some txt ->
   occurs_ci K_CHECK (norm b3) = false ->
   Forall check_wf (t_checks (x_t x)) ->
   fill_checks txt = map kopt (t_checks (x_t x)).
 Proof. exact fill_checks_print_table. Qed.
-Print Assumptions C03_regex_inverts_printer_checks.
+Print Assumptions C03_regex_inverts_printer_checks_except.
 
-Example C03_regex_inverts_printer_checks_nonvacuous :
+Example C03_regex_inverts_printer_checks_except_nonvacuous :
   print_table w_tab_full = Some w_tab_full_text /\
   (exists b3, print_body w_tab_full = Some b3 /\ occurs_ci K_CHECK (norm b3) = false) /\
   fill_checks w_tab_full_text = [(Some (B "ck"), B "(a > 0)"); (None, B "(length(b) > (1))")].
@@ -74,7 +74,7 @@ Proof. split; [exact w_tab_full_print|split; [exact w_tab_full_body_free|vm_comp
     the column's regexp starts earlier in the statement and no further "AS (" follows in the same
     comma-free stretch, the expression is recovered exactly.  Both premises are decidable on the text
     and both are necessary (3b). *)
-Theorem C03_regex_inverts_printer_genexpr :
+Theorem C03_regex_inverts_printer_genexpr_except :
   forall name pre c sp1 mid w e rest,
   name_ok name -> open_ch c = true -> forallb is_space sp1 = true ->
   forallb not_comma mid = true -> forallb is_space w = true -> wrapped e ->
@@ -83,15 +83,15 @@ Theorem C03_regex_inverts_printer_genexpr :
     (pre ++ c :: sp1 ++ bt_ident name ++ mid ++ K_AS ++ w ++ e ++ rest) (List.length pre) = true ->
   set_gen_expr name (pre ++ c :: sp1 ++ bt_ident name ++ mid ++ K_AS ++ w ++ e ++ rest) = GenOk e.
 Proof. exact set_gen_expr_printed. Qed.
-Print Assumptions C03_regex_inverts_printer_genexpr.
+Print Assumptions C03_regex_inverts_printer_genexpr_except.
 
-Example C03_regex_inverts_printer_genexpr_nonvacuous :
+Example C03_regex_inverts_printer_genexpr_except_nonvacuous :
   set_gen_expr (B "cx") w_tab_full_text = GenOk (B "(a + 1)") /\
   no_start_before _ (match_gen_at (B "cx")) w_tab_full_text 104 = true.
 Proof. vm_compute. split; reflexivity. Qed.
 
 (** 2d. autoinc on a column as the planner writes it: `name` integer ... PRIMARY KEY AUTOINCREMENT. *)
-Theorem C03_regex_inverts_printer_autoinc :
+Theorem C03_regex_inverts_printer_autoinc_except :
   forall name pre c sp1 w1 mid rest cols,
   name_ok name -> open_ch c = true -> forallb is_space sp1 = true -> forallb is_space w1 = true ->
   forallb not_comma mid = true -> In name cols ->
@@ -99,19 +99,19 @@ Theorem C03_regex_inverts_printer_autoinc :
     (pre ++ c :: sp1 ++ bt_ident name ++ ch_sp :: w1 ++ t_integer ++ ch_sp :: mid ++ PK_AUTOINC ++ rest) (List.length pre) = true ->
   autoinc (pre ++ c :: sp1 ++ bt_ident name ++ ch_sp :: w1 ++ t_integer ++ ch_sp :: mid ++ PK_AUTOINC ++ rest) cols [name] = AutoOk name.
 Proof. exact autoinc_printed. Qed.
-Print Assumptions C03_regex_inverts_printer_autoinc.
+Print Assumptions C03_regex_inverts_printer_autoinc_except.
 
-Example C03_regex_inverts_printer_autoinc_nonvacuous :
+Example C03_regex_inverts_printer_autoinc_except_nonvacuous :
   autoinc w_tab_full_text [B "id"; B "a"; B "b"; B "cx"; B "c"] [B "id"] = AutoOk (B "id").
 Proof. vm_compute. reflexivity. Qed.
 
 (** 2e. the predicate of a partial index as the planner writes it: if the letters WHERE (upper case)
     do not occur before the keyword, the predicate is recovered (trimmed). *)
-Theorem C03_regex_inverts_printer_predicate :
+Theorem C03_regex_inverts_printer_predicate_except :
   forall pre c p, occurs_cs K_WHERE pre = false -> ~ In c K_WHERE ->
   index_predicate (pre ++ c :: K_WHERE ++ p) = Some (trim_space p).
 Proof. exact index_predicate_printed. Qed.
-Print Assumptions C03_regex_inverts_printer_predicate.
+Print Assumptions C03_regex_inverts_printer_predicate_except.
 
 (** 3. The full statement "the recovery applied to the text the planner emits returns what was
     printed" is FALSE of inspect.go.  Each witness is a statement SQLite accepts and stores
@@ -263,7 +263,7 @@ Print Assumptions C03_stable.
     columns, table and referenced columns, provided no two keys of the list share that shape ([one_match]);
     3e is the failure without it. *)
 From Atlas Require Import Sqlite.ExportFkProofs.
-Theorem C03_regex_inverts_printer_fk_names :
+Theorem C03_regex_inverts_printer_fk_names_except :
   forall l post fks,
   Forall (fun p => gap_ok (fst p) /\ nfk_ok (snd p)) l ->
   find_all_fkt (S (List.length post)) post = [] ->
@@ -271,9 +271,9 @@ Theorem C03_regex_inverts_printer_fk_names :
   (forall k, In k (map snd l) -> one_match (m_fk k) fks) ->
   fill_const_name (fks_text l ++ post) fks = map (fun p => fold_left (fun p k => upd k p) (map snd l) p) fks.
 Proof. exact fill_const_name_printed. Qed.
-Print Assumptions C03_regex_inverts_printer_fk_names.
+Print Assumptions C03_regex_inverts_printer_fk_names_except.
 
-Example C03_regex_inverts_printer_fk_names_nonvacuous :
+Example C03_regex_inverts_printer_fk_names_except_nonvacuous :
   w_tab_full_text = fks_text [(w_gap, w_k)] ++ w_post /\
   map pf_symbol (fill_const_name w_tab_full_text [mkPfk (B "0") [B "a"] (B "p") [B "id"]]) = [B "fk1"].
 Proof. exact (conj w_fk_decomposition w_fk_result). Qed.
